@@ -4,6 +4,7 @@ package main
 
 import (
 	"fmt"
+	"go/constant"
 	"go/token"
 	"go/types"
 	"reflect"
@@ -391,6 +392,12 @@ func runC04(w *World, r *Report) {
 		csCalls := f.calls(cn("wallet", "", "checksum"))
 		r.check(ok && len(csCalls) >= 1, "verification-chain", "wallet.Helper.AddressToPubKey", w.Pos(fn.Pos()),
 			"a key is returned only behind the checksum equality and is a slice of the decoded address", fmt.Sprintf("ok=%v checksum-calls=%d", ok, len(csCalls)))
+		if dec != nil {
+			r.rule("address-fully-consumed", "every byte of the decoded address is consumed (as version, key or checksum): no address with surplus bytes resolves to a key", 1)
+			covered, detail := addressBytesCovered(fn, dec)
+			r.check(covered, "address-fully-consumed", "wallet.Helper.AddressToPubKey/decoded-bytes", w.Pos(fn.Pos()),
+				"the byte ranges of the decoded address that reach the checksum comparison and the returned key tile [0,len) on every successful return", detail)
+		}
 	}
 
 	// 3. signed-field coverage
@@ -508,3 +515,224 @@ func runC04(w *World, r *Report) {
 	}
 }
 
+// ---------------------------------------------------------------------------------------------
+// address-fully-consumed: a small symbolic evaluation of the slicing done on the decoded address.
+
+// lin is the linear form a + b·L, L = len(decoded address).
+type lin struct{ a, b int64 }
+
+func (x lin) String() string {
+	switch {
+	case x.b == 0:
+		return fmt.Sprint(x.a)
+	case x.a == 0 && x.b == 1:
+		return "len"
+	case x.b == 1:
+		return fmt.Sprintf("len%+d", x.a)
+	}
+	return fmt.Sprintf("%d%+d·len", x.a, x.b)
+}
+
+type linRange struct {
+	lo, hi lin
+	pos    token.Pos
+}
+
+// addressBytesCovered: do the consumed sub-ranges of dec tile [0, len(dec)) on every success return?
+func addressBytesCovered(fn *ssa.Function, dec ssa.Value) (bool, string) {
+	ranges := map[ssa.Value]linRange{} // slices of dec, in absolute positions
+	ranges[dec] = linRange{lin{0, 0}, lin{0, 1}, dec.Pos()}
+	var evalInt func(v ssa.Value, d int) (lin, bool)
+	rangeOf := func(v ssa.Value) (linRange, bool) {
+		rg, ok := ranges[strip(v)]
+		if !ok {
+			rg, ok = ranges[v]
+		}
+		return rg, ok
+	}
+	evalInt = func(v ssa.Value, d int) (lin, bool) {
+		if d > 8 {
+			return lin{}, false
+		}
+		switch x := v.(type) {
+		case *ssa.Const:
+			if x.Value != nil {
+				if n, ok := constant.Int64Val(constant.ToInt(x.Value)); ok {
+					return lin{n, 0}, true
+				}
+			}
+		case *ssa.Convert:
+			return evalInt(x.X, d+1)
+		case *ssa.Call:
+			if b, ok := x.Call.Value.(*ssa.Builtin); ok && b.Name() == "len" && len(x.Call.Args) == 1 {
+				if rg, ok := rangeOf(x.Call.Args[0]); ok {
+					return lin{rg.hi.a - rg.lo.a, rg.hi.b - rg.lo.b}, true
+				}
+			}
+		case *ssa.BinOp:
+			l, ok1 := evalInt(x.X, d+1)
+			rr, ok2 := evalInt(x.Y, d+1)
+			if ok1 && ok2 {
+				switch x.Op {
+				case token.ADD:
+					return lin{l.a + rr.a, l.b + rr.b}, true
+				case token.SUB:
+					return lin{l.a - rr.a, l.b - rr.b}, true
+				}
+			}
+		}
+		return lin{}, false
+	}
+	// slices of dec, to a fixpoint (blocks are in dominance-compatible order for straight-line code; iterate anyway)
+	unknownSlice := ""
+	for iter := 0; iter < 4; iter++ {
+		instrsOf(fn, func(in ssa.Instruction) {
+			sl, ok := in.(*ssa.Slice)
+			if !ok {
+				return
+			}
+			if _, done := ranges[sl]; done {
+				return
+			}
+			base, ok := rangeOf(sl.X)
+			if !ok {
+				return
+			}
+			lo, hi := base.lo, base.hi
+			if sl.Low != nil {
+				l, ok := evalInt(sl.Low, 0)
+				if !ok {
+					unknownSlice = "slice bound not linear in len(decoded)"
+					return
+				}
+				lo = lin{base.lo.a + l.a, base.lo.b + l.b}
+			}
+			if sl.High != nil {
+				h, ok := evalInt(sl.High, 0)
+				if !ok {
+					unknownSlice = "slice bound not linear in len(decoded)"
+					return
+				}
+				hi = lin{base.lo.a + h.a, base.lo.b + h.b}
+			}
+			ranges[sl] = linRange{lo, hi, sl.Pos()}
+		})
+	}
+	if unknownSlice != "" {
+		return false, unknownSlice
+	}
+	// consumed ranges: a slice used by anything but a re-slice or len(); an element read at a constant index
+	var consumed []linRange
+	for v, rg := range ranges {
+		refs := v.Referrers()
+		if refs == nil {
+			continue
+		}
+		for _, ref := range *refs {
+			switch x := ref.(type) {
+			case *ssa.Slice:
+				continue
+			case *ssa.DebugRef:
+				continue
+			case *ssa.Call:
+				if b, ok := x.Call.Value.(*ssa.Builtin); ok && b.Name() == "len" {
+					continue
+				}
+				consumed = append(consumed, rg)
+			case *ssa.IndexAddr:
+				if sameVal(x.X, v) {
+					if i, ok := evalInt(x.Index, 0); ok {
+						consumed = append(consumed, linRange{lin{rg.lo.a + i.a, rg.lo.b + i.b}, lin{rg.lo.a + i.a + 1, rg.lo.b + i.b}, x.Pos()})
+						continue
+					}
+				}
+				consumed = append(consumed, rg)
+			default:
+				consumed = append(consumed, rg)
+			}
+		}
+	}
+	// is len(dec) pinned on the way to a success return?  (an equality between a constant and a form with b≠0)
+	pinnedAt := func(ret *ssa.Return) (int64, bool) {
+		type cand struct {
+			L     int64
+			edges []Edge
+		}
+		byL := map[int64][]Edge{}
+		for _, b := range fn.Blocks {
+			for i := range b.Succs {
+				e := Edge{b, i}
+				for _, f := range edgeFacts(e) {
+					if f.kind != fEq || f.x == nil || f.y == nil {
+						continue
+					}
+					l, ok1 := evalInt(f.x, 0)
+					rr, ok2 := evalInt(f.y, 0)
+					if !ok1 || !ok2 {
+						continue
+					}
+					d := lin{l.a - rr.a, l.b - rr.b} // d.a + d.b·L == 0
+					if d.b != 0 && (-d.a)%d.b == 0 {
+						L := -d.a / d.b
+						byL[L] = append(byL[L], e)
+					}
+				}
+			}
+		}
+		for L, es := range byL {
+			if behind(ret, es) {
+				return L, true
+			}
+		}
+		return 0, false
+	}
+	tiles := func(rs []linRange, end lin) (bool, lin) {
+		cur := lin{0, 0}
+		for step := 0; step < len(rs)+1; step++ {
+			if cur == end {
+				return true, cur
+			}
+			adv := false
+			for _, rg := range rs {
+				// rg.lo ≤ cur < rg.hi, comparable only when the len-coefficients agree
+				if rg.lo.b == cur.b && rg.lo.a <= cur.a && (rg.hi.b != cur.b || rg.hi.a > cur.a) {
+					if rg.hi.b == cur.b && rg.hi.a <= cur.a {
+						continue
+					}
+					cur = rg.hi
+					adv = true
+					break
+				}
+			}
+			if !adv {
+				return false, cur
+			}
+		}
+		return cur == end, cur
+	}
+	nSucc := 0
+	for _, ret := range returnsOf(fn) {
+		if !successReturn(ret) {
+			continue
+		}
+		nSucc++
+		rs := consumed
+		end := lin{0, 1}
+		if L, ok := pinnedAt(ret); ok {
+			rs = nil
+			for _, rg := range consumed {
+				rs = append(rs, linRange{lin{rg.lo.a + rg.lo.b*L, 0}, lin{rg.hi.a + rg.hi.b*L, 0}, rg.pos})
+			}
+			end = lin{L, 0}
+		}
+		if ok, reached := tiles(rs, end); !ok {
+			var parts []string
+			for _, rg := range rs {
+				parts = append(parts, fmt.Sprintf("[%v:%v]", rg.lo, rg.hi))
+			}
+			sort.Strings(parts)
+			return false, fmt.Sprintf("consumed ranges %s cover the decoded address only up to %v, not to %v: bytes beyond are ignored, so distinct addresses resolve to one key", strings.Join(uniqStrings(parts), " "), reached, end)
+		}
+	}
+	return nSucc > 0, fmt.Sprintf("%d success returns", nSucc)
+}
